@@ -163,7 +163,9 @@ class MakeTrades(Contract):
         def post():
             vn = SymBrokerView(I, c.broker, I.snapshot())
             return [PW("positions_unchanged", lambda k: z3.Implies(k != vo.cash, vn.qty(k) == vo.qty(k))),
-                    Cl("equity_preserved", ghost.gsum(I, EquityFam(c.broker), None) == ghost.gsum(I, EquityFam(c.broker), c.old))]
+                    Cl("equity_preserved", ghost.gsum(I, EquityFam(c.broker), None) == ghost.gsum(I, EquityFam(c.broker), c.old)),
+                    PW("wf_preserved", lambda k: wf_at(vn, k)), Cl("cash_ok", cash_ok(vn)),
+                    PW("static_keys", lambda k: z3.Implies(z3.Or(vn.in_qty(k), vn.in_margins(k), vn.has_last(k)), static_key(k)))]
         return {
             "ValueError": {"when": z3.Or(missing, z3.And(S.E > 0, z3.Or(nan_imb, rejected))), "modifies": mods,
                            "post": LazyList(post)},
